@@ -225,10 +225,13 @@ Definition is_pay_to_script_hash (script : bytes) : bool :=
   | _, _ => false
   end.
 
-(* ScriptTools.get_opcodes loop of _delete_signature / delete_subscript:
-     for opcode, data, pc, new_pc in get_opcodes(script):      # is_ok is ignored, the walk goes on at new_pc
+(* the walk of delete_subscript (which _delete_signature calls with the plain-push pattern):
+     while pc < len(script):
+         opcode, data, new_pc, is_ok = scriptStreamer.get_opcode(script, pc)
+         if not is_ok: new_script.extend(script[pc:]); break      # an undecodable instruction ends the walk
          section = script[pc:new_pc]
          if section != subscript: new_script.extend(section)
+         pc = new_pc
    fuel = length script (new_pc > pc always; Proofs/VMpyP.v) *)
 Fixpoint delete_walk (fuel : nat) (script sub : bytes) (pc : nat) : outcome bytes :=
   if (length script <=? pc)%nat then Ret []
@@ -236,12 +239,14 @@ Fixpoint delete_walk (fuel : nat) (script sub : bytes) (pc : nat) : outcome byte
        | O => OutOfFuel
        | S f =>
          match btc_get_opcode script pc false with
-         | Ret (_, _, new_pc, _) =>
-           let section := slice pc new_pc script in
-           match delete_walk f script sub new_pc with
-           | Ret rest => Ret (if bytes_eqb section sub then rest else section ++ rest)
-           | other => other
-           end
+         | Ret (_, _, new_pc, is_ok) =>
+           if is_ok then
+             let section := slice pc new_pc script in
+             match delete_walk f script sub new_pc with
+             | Ret rest => Ret (if bytes_eqb section sub then rest else section ++ rest)
+             | other => other
+             end
+           else Ret (skipn pc script)
          | Raise e => Raise e
          | OutOfFuel => OutOfFuel
          end
